@@ -233,6 +233,56 @@ theorem scanMap_none {cfg : Cfg} {now : Nat} {req : Option Req} {st : St} {hdr :
       have := ih (tbl := (judgeEntry cfg now req st hdr tbl x).1) h pre' ent post hl.2
       simpa [scanMap] using this
 
+theorem firstViol_none_iff' {α} {a b : Option α} (h : firstViol a b = none) : a = none ∧ b = none := by
+  cases a with
+  | some x => cases h
+  | none => exact ⟨rfl, h⟩
+
+theorem complete_chkBodyLog {pend : List (Tag × Name)} {n : Nat} {log : List LogEnt}
+    (h : chkBodyLog pend n log = none) (c : LogClause) : PBodyLog pend n log c := by
+  unfold chkBodyLog at h
+  cases hf : pend.find? (·.1 == Tag.u n) with
+  | none =>
+    rw [hf] at h
+    simp only [] at h
+    split at h
+    · cases h
+    · rename_i hne
+      cases c <;> simp only [PBodyLog]
+      · intro t nm hx; rw [hf] at hx; cases hx
+      · intro _
+        cases hl : log with
+        | nil => rfl
+        | cons x t => simp [hl] at hne
+  | some x =>
+    obtain ⟨t, nm⟩ := x
+    rw [hf] at h
+    simp only [] at h
+    have hall := firstSome_eq_none h
+    cases c <;> simp only [PBodyLog]
+    · intro t' nm' hx l hl
+      rw [hf] at hx
+      cases hx
+      have := hall l hl
+      simp only [ite_eq_right_iff] at this
+      cases hs : (l.sess != nm) with
+      | false => simpa using hs
+      | true => exact absurd (this hs) (by simp)
+    · intro hx; rw [hf] at hx; cases hx
+
+theorem complete_chkClose {map : List MapEnt} {stale : List Name} (h : chkClose map stale = none) (c : CloseClause) :
+    PClose map stale c := by
+  unfold chkClose at h
+  have h1 := firstSome_eq_none (firstViol_none_iff' h).1
+  have h2 := firstSome_eq_none (firstViol_none_iff' h).2
+  cases c <;> simp only [PClose]
+  · intro e he hc hb
+    have := h1 e he
+    simp [hc, hb] at this
+  · cases hs : stale with
+    | nil => rfl
+    | cons x t => have := h2 x (by rw [hs]; simp); cases this
+
 theorem firstViol_none_iff {α} {a b : Option α} (h : firstViol a b = none) : a = none ∧ b = none := by
   cases a with
   | some x => cases h
@@ -283,10 +333,19 @@ theorem monitor_complete {cfg : Cfg} {tr : Trace} (h : runMon cfg tr = none) (c 
   induction c with
   | zombieThen c ih => exact ih
   | ans x =>
-    intro pre op o post r htr hr
+    intro pre op o post r htr hr hansw
     have hraw := viol_none_raw (runMonFrom_none h pre op o post htr)
     unfold rawViol at hraw
-    have h1 := map_none (firstViol_none_iff hraw).1
+    have h0 := map_none (firstViol_none_iff hraw).1
+    have h1 : chkAnswerO cfg (effFaults cfg (monAfter cfg {} pre)) ((monAfter cfg {} pre).tbl.map (expire cfg (nowAfter (monAfter cfg {} pre) op))) op.req o.status = none := by
+      unfold chkAnswerOp at h0
+      split at h0
+      · rename_i ref u
+        split at h0
+        · rename_i hpd
+          exact absurd (by simpa using hpd) (hansw ref u rfl)
+        · exact h0
+      · exact h0
     unfold chkAnswerO at h1
     rw [hr] at h1
     exact complete_chkAnswer h1 x
@@ -294,7 +353,10 @@ theorem monitor_complete {cfg : Cfg} {tr : Trace} (h : runMon cfg tr = none) (c 
     intro pre op o post htr
     have hraw := viol_none_raw (runMonFrom_none h pre op o post htr)
     unfold rawViol at hraw
-    exact complete_chkLog (map_none (firstViol_none_iff (firstViol_none_iff hraw).2).1) x
+    have h2 := map_none (firstViol_none_iff (firstViol_none_iff hraw).2).1
+    show PLogOp cfg (monAfter cfg {} pre).pend op o.status o.log x
+    cases op <;> simp only [chkLogOp] at h2 <;> simp only [PLogOp] <;>
+      first | exact complete_chkBodyLog h2 x | exact complete_chkLog h2 x
   | mint x =>
     intro pre op o post htr
     have hraw := viol_none_raw (runMonFrom_none h pre op o post htr)
@@ -325,10 +387,16 @@ theorem monitor_complete {cfg : Cfg} {tr : Trace} (h : runMon cfg tr = none) (c 
     intro pre op o post htr
     have hraw := viol_none_raw (runMonFrom_none h pre op o post htr)
     unfold rawViol at hraw
-    have h8 := (firstViol_none_iff (firstViol_none_iff (firstViol_none_iff (firstViol_none_iff (firstViol_none_iff (firstViol_none_iff (firstViol_none_iff hraw).2).2).2).2).2).2).2
+    have h8 := (firstViol_none_iff (firstViol_none_iff (firstViol_none_iff (firstViol_none_iff (firstViol_none_iff (firstViol_none_iff (firstViol_none_iff (firstViol_none_iff hraw).2).2).2).2).2).2).2).1
     apply complete_chkNoId
     cases hn : chkNoId cfg op.req o.status o.hdr with
     | false => rfl
     | true => rw [hn] at h8; cases h8
+
+  | close x =>
+    intro pre op o post htr
+    have hraw := viol_none_raw (runMonFrom_none h pre op o post htr)
+    unfold rawViol at hraw
+    exact complete_chkClose (map_none (firstViol_none_iff (firstViol_none_iff (firstViol_none_iff (firstViol_none_iff (firstViol_none_iff (firstViol_none_iff (firstViol_none_iff (firstViol_none_iff hraw).2).2).2).2).2).2).2).2) x
 
 end Sessions
